@@ -101,8 +101,10 @@ func equalp(x, y slip.Object) bool {
 		return tx.Equal(y)
 	case slip.Tail:
 		if ty, ok := y.(slip.Tail); ok {
-			return equal(tx.Value, ty.Value)
+			return equalp(tx.Value, ty.Value)
 		}
+	case nil:
+		// nil is only equalp to nil which the eq check above covers.
 	default:
 		if x.Equal(y) {
 			return true
